@@ -473,36 +473,55 @@ func checkBasicKind(w *World, r *Result) {
 	info := fi.Pkg.TypesInfo
 	pairs := map[string]string{"IsBoolean": "BKBool", "IsInteger": "BKInt", "IsFloat": "BKFloat", "IsString": "BKString"}
 	n := 0
-	var walk func(s ast.Stmt)
-	walk = func(s ast.Stmt) {
-		is, ok := s.(*ast.IfStmt)
-		if !ok {
-			return
-		}
+	// each return is reached under the test of one go/types flag (whatever the dispatch is written as: if / else-if
+	// chain, tagless switch, early returns): the kind returned there must be the one of the same name
+	flagOf := func(c pcond) string {
 		flag := ""
-		ast.Inspect(is.Cond, func(x ast.Node) bool {
+		if c.expr == nil {
+			return ""
+		}
+		ast.Inspect(c.expr, func(x ast.Node) bool {
 			if sel, ok := x.(*ast.SelectorExpr); ok {
-				if c, ok := info.Uses[sel.Sel].(*types.Const); ok && c.Pkg() != nil && c.Pkg().Path() == "go/types" {
-					flag = c.Name()
+				if k, ok := info.Uses[sel.Sel].(*types.Const); ok && k.Pkg() != nil && k.Pkg().Path() == "go/types" {
+					flag = k.Name()
 				}
 			}
 			return true
 		})
-		if flag != "" && len(is.Body.List) == 1 {
-			if ret, ok := is.Body.List[0].(*ast.ReturnStmt); ok && len(ret.Results) >= 1 {
-				n++
-				got := es(ret.Results[0])
-				want, known := pairs[flag]
-				r.cond(known && got == want, "AGR-C12n", fi.Name, "types."+flag+" -> "+got, w.Pos(is.Pos()), "flag and kind of the same name", "the go/types flag "+flag+" is mapped to "+got+" (expected "+want+")")
+		return flag
+	}
+	ast.Inspect(fi.Decl.Body, func(x ast.Node) bool {
+		if _, ok := x.(*ast.FuncLit); ok {
+			return false
+		}
+		ret, ok := x.(*ast.ReturnStmt)
+		if !ok || len(ret.Results) < 1 {
+			return true
+		}
+		var flags []string
+		for _, c := range pathConds(fi.Decl, ret) {
+			// `info&types.IsX != 0` holds, or `info&types.IsX == 0` does not
+			be, isBin := ast.Unparen(c.expr).(*ast.BinaryExpr)
+			if !isBin || (be.Op != token.NEQ && be.Op != token.EQL) {
+				continue
+			}
+			if (be.Op == token.NEQ) != c.truth {
+				continue
+			}
+			if f := flagOf(c); f != "" {
+				flags = append(flags, f)
 			}
 		}
-		if is.Else != nil {
-			walk(is.Else)
+		if len(flags) != 1 {
+			return true
 		}
-	}
-	for _, st := range fi.Decl.Body.List {
-		walk(st)
-	}
+		n++
+		flag := flags[0]
+		got := es(ret.Results[0])
+		want, known := pairs[flag]
+		r.cond(known && got == want, "AGR-C12n", fi.Name, "types."+flag+" -> "+got, w.Pos(ret.Pos()), "flag and kind of the same name", "the go/types flag "+flag+" is mapped to "+got+" (expected "+want+")")
+		return true
+	})
 	if n < 4 {
 		Undecided("NewBasicKind: only %d flag branches recognised", n)
 	}
